@@ -92,10 +92,16 @@ func init() {
 		case 2:
 			recipient = &pub
 		}
-		ct, err := encrypted_leaseset.EncryptInnerLeaseSet2(&ls, cookie, recipient)
+		ctLive, err := encrypted_leaseset.EncryptInnerLeaseSet2(&ls, cookie, recipient)
 		if err != nil {
 			return Res{"setup": true, "enc_ok": false, "err": errStr(err)}
 		}
+		// the ciphertext is kept while the next encryption runs (straight away, nothing in between): it is still what it was, and the
+		// second ciphertext is another one (fresh ephemeral key and nonce)
+		ct := append([]byte{}, ctLive...)
+		ct2Live, _ := encrypted_leaseset.EncryptInnerLeaseSet2(&ls, cookie, recipient)
+		ct2 := append([]byte{}, ct2Live...)
+		keptUnchanged := string(ctLive) == string(ct)
 		seed := make([]byte, 32)
 		rng.Read(seed)
 		signer := stded.NewKeyFromSeed(seed)
@@ -193,10 +199,10 @@ func init() {
 		ok, _, nv = decrypt(ct, []byte(wrongPriv))
 		res["wrongkey_bytes_rejected"] = !ok && nv
 		// a second encryption of the same value differs (fresh ephemeral key and nonce) but decrypts to the same bytes
-		ct2, _ := encrypted_leaseset.EncryptInnerLeaseSet2(&ls, cookie, recipient)
 		ok2, same2, _ := decrypt(ct2, priv)
 		res["second_same"] = ok2 && same2
 		res["second_differs"] = string(ct2) != string(ct)
+		res["first_kept_unchanged"] = keptUnchanged
 		accepted := []any{}
 		n := 0
 		for _, p := range a.List("positions") {
